@@ -99,9 +99,9 @@ pub fn run(args: &Args) -> Report {
         let n = 2 * a.0.max(b.0) as usize + 2;
         for cap in if thorough { vec![0usize, 1] } else { vec![0usize] } {
             for (name, streams) in scripts(n, thorough) {
-                let cfg = XferCfg { a, b, cap, streams, stream_buffer: 4, one_byte_frames: true, dgram_pingpong: 0, dgram_buffer: 4, horizon: 6000 };
+                let cfg = XferCfg { a, b, cap, streams, stream_buffer: 4, one_byte_frames: true, dgram_pingpong: 0, dgram_buffer: 4, drop_mux_when_writers_done: None, horizon: 6000 };
                 let label = format!("{name} | {}", cfg.describe());
-                cases.push(Case { label, exec: Box::new(move |r| xfer::exec(&cfg, &or, r)) });
+                cases.push(Case { try_unbounded: false, max_k: u32::MAX, label, exec: Box::new(move |r| xfer::exec(&cfg, &or, r)) });
             }
         }
     }
